@@ -190,7 +190,12 @@ def run_family(ck, n_grammars, n_inputs, with_reset=True):
             olines.append("c08oracle %s | %s" % (" ".join(map(str, m[2][0])), " ".join(toks)) if good else "c08oracle x")
         overd = C.run_model(olines, timeout=3000) if olines else []
         k = 0
-        per = {i: {"i": i, "g": gs[i], "rc": b.items[i]["rc"], "hang": b.items[i]["hang"], "text": b.items[i]["text"].decode("utf-8", "replace"),
+        def txt(i):
+            t = C.Txt(b.items[i]["text"].decode("utf-8", "replace"))
+            t.enc = gram.encode(gs[i])
+            t.flags = b.items[i]["flags"]
+            return t
+        per = {i: {"i": i, "g": gs[i], "rc": b.items[i]["rc"], "hang": b.items[i]["hang"], "text": txt(i),
                    "gocc_out": b.items[i]["out"] + b.items[i]["err"],
                    "model_reg": reg[i], "model_tab": mtab[i], "lexeq": meq[i], "model_terms": mterm[i], "scans": []}
                for i in range(n)}
